@@ -9,7 +9,7 @@ from __future__ import annotations
 
 from typing import Any, Dict, List, Tuple
 
-from checks.codec_common import make_unit_fn, minimize_keys, prog_case, replay_with, tagkey
+from checks.codec_common import make_contextualize, make_unit_fn, minimize_keys, prog_case, replay_with, tagkey
 from mcx.core import Ctx, Part, digest, pmap
 from odxmodel import harness, refodx, space
 from odxmodel.harness import jval, show
@@ -100,13 +100,20 @@ def check_program(L: harness.Loaded, prog: Dict[str, Any], part: Part) -> None:
 unit_fn = make_unit_fn(PROPERTY, check_program)
 
 
+def units_for(quick: bool) -> List[Any]:
+    return space.layer_a_units(quick) + space.layer_b_units(quick) + space.layer_c_units(quick)
+
+
+contextualize = make_contextualize(PROPERTY, units_for)
+
+
 def run(ctx: Ctx) -> None:
-    units = space.layer_a_units(ctx.quick) + space.layer_b_units(ctx.quick) + space.layer_c_units(ctx.quick)
+    units = units_for(ctx.quick)
     ctx.bounds = {"layers": "A + C", "units": len(units), "all_values_upto_bits": 8 if ctx.quick else 12}
     ctx.rule = "every distinct reference-built PDU of every program; non-trivial = distinct (program tags, PDU)"
     ctx.assumptions = ["PDUs are canonical by construction (reference encoder)", "programs with NRC-CONST parameters are excluded (not settable by design)",
                        "the compu-level inverse law of the property is checked by C07"]
-    pmap(ctx, unit_fn, units)
+    pmap(ctx, unit_fn, units, isolate=True)
     minimize_keys(ctx)
     ctx.counts["traces_validated_against_impl"] = ctx.counts.get("decoded", 0)
     ctx.sample({"program": "i_Ux_l_12_3_a", "pdu": "e055", "decoded": {"v": 2748}, "re-encoded": "e055"})
